@@ -11,6 +11,7 @@ import (
 	"net/url"
 	"strings"
 	"sync"
+	"time"
 
 	"github.com/gorilla/websocket"
 	"pgregory.net/rapid"
@@ -126,10 +127,6 @@ type hookLog struct {
 }
 
 func checkC18(c DialCell, o *Obs) error {
-	if !c.ND && !c.NDC && !c.NDTLS {
-		o.Class("skipped_needs_real_sockets")
-		return nil
-	}
 	entitySecure := c.Proxy == "https" || (c.Proxy == "" && c.Secure)
 	wantFn := "NetDial"
 	switch {
@@ -140,15 +137,55 @@ func checkC18(c DialCell, o *Obs) error {
 	case c.ND:
 		wantFn = "NetDial"
 	default:
-		// only NetDialTLSContext is set but the first hop is not TLS: the default dialer would be used
-		o.Class("skipped_needs_real_sockets")
-		return nil
+		// no applicable custom dial function: the library's default net.Dialer
+		// makes the first hop; it is pointed at a loopback listener whose
+		// accepted connections are served by the same in-process peers.
+		wantFn = "default"
 	}
 	spec := PeerSpec{ProxyKind: c.Proxy, ProxyReply: c.ProxyReply, BackendCert: c.Cert}
 	spec.ProxyTLS = c.Proxy == "https" && !c.NDTLS
 	spec.BackendTLS = c.Secure && !(c.Proxy == "" && c.NDTLS)
 
 	hl := &hookLog{}
+	var ln net.Listener
+	if wantFn == "default" {
+		var err error
+		ln, err = net.Listen("tcp", "127.0.0.1:0")
+		if err != nil {
+			o.Class("skipped_no_loopback")
+			return nil
+		}
+		defer ln.Close()
+		go func() {
+			for {
+				nc, err := ln.Accept()
+				if err != nil {
+					return
+				}
+				log := &PeerLog{done: make(chan struct{})}
+				hl.mu.Lock()
+				hl.calls = append(hl.calls, "default tcp "+ln.Addr().String())
+				hl.logs = append(hl.logs, log)
+				hl.ends = append(hl.ends, nc)
+				hl.mu.Unlock()
+				go func() {
+					defer close(log.done)
+					defer nc.Close()
+					runPeer(nc, spec, log)
+				}()
+			}
+		}()
+		// the first hop must reach the listener
+		c.Hosts = append([]string(nil), c.Hosts...)
+		if c.Proxy != "" {
+			c.ProxyHost = ln.Addr().String()
+		} else {
+			for i := range c.Hosts {
+				c.Hosts[i] = ln.Addr().String()
+			}
+		}
+		o.Class("firsthop_default_dialer_over_loopback")
+	}
 	mk := func(name string) func(ctx context.Context, network, addr string) (net.Conn, error) {
 		return func(ctx context.Context, network, addr string) (net.Conn, error) {
 			end, log := startPeer(spec)
@@ -198,17 +235,37 @@ func checkC18(c DialCell, o *Obs) error {
 		if c.Secure {
 			scheme = "wss"
 		}
+		hl.mu.Lock()
 		callsBefore := len(hl.calls)
+		hl.mu.Unlock()
 		conn, _, err := d.Dial(scheme+"://"+host+"/path?q=1", nil)
 		if (conn == nil) == (err == nil) {
 			return fmt.Errorf("dial %d: Dial returned conn=%v err=%v", hi, conn != nil, err)
 		}
 		// ---- first hop
-		if n := len(hl.calls) - callsBefore; n != 1 {
+		if wantFn == "default" {
+			// the accept goroutine registers the connection asynchronously
+			for i := 0; i < 2000; i++ {
+				hl.mu.Lock()
+				n := len(hl.calls) - callsBefore
+				hl.mu.Unlock()
+				if n >= 1 {
+					break
+				}
+				time.Sleep(time.Millisecond)
+			}
+		}
+		hl.mu.Lock()
+		ncalls := len(hl.calls) - callsBefore
+		hl.mu.Unlock()
+		if n := ncalls; n != 1 {
 			return fmt.Errorf("dial %d to %s via proxy %q: %d custom dial calls, want exactly 1 (the first hop): %v", hi, host, c.Proxy, n, hl.calls[callsBefore:])
 		}
+		hl.mu.Lock()
 		call := hl.calls[len(hl.calls)-1]
 		log := hl.logs[len(hl.logs)-1]
+		lastEnd := hl.ends[len(hl.ends)-1]
+		hl.mu.Unlock()
 		wantAddr := withDefaultPort(host, map[bool]string{false: "80", true: "443"}[c.Secure])
 		if c.Proxy != "" {
 			wantAddr = withDefaultPort(c.ProxyHost, map[string]string{"http": "80", "https": "443", "socks5": "1080"}[c.Proxy])
@@ -219,7 +276,7 @@ func checkC18(c DialCell, o *Obs) error {
 		if conn != nil {
 			conn.Close()
 		}
-		hl.ends[len(hl.ends)-1].Close()
+		lastEnd.Close()
 		log.wait()
 		log.mu.Lock()
 		lg := struct {
